@@ -13,6 +13,7 @@ import Driver.C09
 import Driver.C11
 import Driver.C18
 import Driver.C19
+import Driver.C06
 open AITB
 
 def handleLine (line : String) : String :=
@@ -34,6 +35,7 @@ def handleLine (line : String) : String :=
   | "C11" :: rest => DrvC11.handle rest
   | "C18" :: rest => DrvC18.handle rest
   | "C19" :: rest => DrvC19.handle rest
+  | "C06" :: rest => DrvC06.handle rest
   | _ => "bad-op"
 
 partial def loop (h : IO.FS.Stream) (out : IO.FS.Stream) : IO Unit := do
